@@ -89,7 +89,8 @@ fn generate(rng: &mut Rng, index: u64) -> ConnScenario {
         _ => client_addr.clone(),
     };
     let target = if rng.chance(1, 2) { Some("gs-prev") } else { None };
-    let body = cookie_json(ts, &cookie_addr, &id, target);
+    // half of the base cookies are laid out exactly as the router writes them (what a returning client really holds)
+    let body = if rng.chance(1, 2) { cookie_json_as_issued(ts, &cookie_addr, &id, target) } else { cookie_json(ts, &cookie_addr, &id, target) };
     let valid = signed_cookie(&signing_secret, &body);
     // the variant axis is enumerated by index so every truncation and bit flip is covered
     let nflip = valid.len() as u64 * 8;
